@@ -169,6 +169,25 @@ def decide(expr, verdict, bounds, st, label):
     s.add(tr.constraints())
     s.add(FORBIDDEN[verdict](t))
     r = z3_check(s, st, 20000)
+    if r == "unknown":
+        # finite-domain case split on the symbol with the smallest range (each case is still decided by
+        # the solver over the remaining symbols)
+        sym, lo, hi = min(bounds, key=lambda b: b[2] - b[1])
+        st.extra["case_splits"] = st.extra.get("case_splits", 0) + 1
+        r = "unsat"
+        for val in range(lo, hi + 1):
+            s.push()
+            s.add(tr.var(sym) == val)
+            rp = z3_check(s, st, 20000)
+            if rp == "sat":
+                m = s.model()
+                pt = {sy.name: int(model_value(m, tr.var(sy))) for sy, _, _ in bounds}
+                s.pop()
+                return "sat", pt
+            s.pop()
+            if rp != "unsat":
+                r = "unknown"
+        return r, None
     pt = None
     if r == "sat":
         m = s.model()
